@@ -27,6 +27,7 @@ type Term struct {
 type renamer struct {
 	ids map[ssa.Value]int
 	n   map[string]int
+	key bool // Key mode: impure calls are told apart by call site
 }
 
 func newRenamer() *renamer { return &renamer{ids: map[ssa.Value]int{}, n: map[string]int{}} }
@@ -35,7 +36,7 @@ func (r *renamer) id(kind string, v ssa.Value) int {
 	if id, ok := r.ids[v]; ok {
 		return id
 	}
-	if kind != "RangeIdx" {
+	if kind != "RangeIdx" && kind != "call" {
 		kind = "buf"
 	}
 	r.n[kind]++
@@ -51,7 +52,7 @@ func (t *Term) String() string {
 
 // keyIDs gives process-wide unique numbers to the values that String numbers
 // by first occurrence, so that Key is a sound symbol name across terms.
-var keyIDs = newRenamer()
+var keyIDs = &renamer{ids: map[ssa.Value]int{}, n: map[string]int{}, key: true}
 
 // Key prints the term with globally unique ids for fresh buffers and loop
 // counters: two Keys are equal only if the terms denote the same value.
@@ -101,7 +102,11 @@ func (t *Term) print(sb *strings.Builder, ren *renamer) {
 		sb.WriteString(t.S)
 		t.Args[0].print(sb, ren)
 	case "Call", "Invoke":
-		sb.WriteString(t.S + "(")
+		sb.WriteString(t.S)
+		if ren.key && t.V != nil && t.S != "len" && t.S != "cap" {
+			fmt.Fprintf(sb, "#%d", ren.id("call", t.V))
+		}
+		sb.WriteString("(")
 		args(", ")
 		sb.WriteString(")")
 	case "Struct":
@@ -113,6 +118,9 @@ func (t *Term) print(sb *strings.Builder, ren *renamer) {
 		t.Args[0].print(sb, ren)
 	default:
 		sb.WriteString(t.Op)
+		if ren.key && t.Op == "CallV" && t.V != nil {
+			fmt.Fprintf(sb, "#%d", ren.id("call", t.V))
+		}
 		if t.S != "" {
 			sb.WriteString("[" + t.S + "]")
 		}
@@ -455,6 +463,9 @@ func (tb *TB) load(x *ssa.UnOp) *Term {
 				return tb.Term(sts[0].Val)
 			}
 		}
+		if st := tb.dominatingFieldStore(x, a); st != nil {
+			return tb.Term(st.Val)
+		}
 		t := mk("Field", fieldName(a.X.Type(), a.Field), x, tb.baseTerm(a.X))
 		if tb.fieldUnstable(a) {
 			id, ok := tb.loadID[x]
@@ -511,6 +522,37 @@ func (tb *TB) load(x *ssa.UnOp) *Term {
 		return mk("Elem", "", x, tb.Term(a.X), tb.Term(a.Index))
 	}
 	return mk("Deref", "", x, tb.Term(x.X))
+}
+
+// dominatingFieldStore finds a store to the same field of the same base that
+// dominates the load with no other possible write to the field in between:
+// the load then yields the stored value.
+func (tb *TB) dominatingFieldStore(x *ssa.UnOp, a *ssa.FieldAddr) *ssa.Store {
+	key := fieldKey(a)
+	baseKey := tb.baseTerm(a.X).Key()
+	var best *ssa.Store
+	for _, b := range x.Parent().Blocks {
+		for _, in := range b.Instrs {
+			st, ok := in.(*ssa.Store)
+			if !ok {
+				continue
+			}
+			fa, ok := st.Addr.(*ssa.FieldAddr)
+			if !ok || fieldKey(fa) != key || tb.baseTerm(fa.X).Key() != baseKey {
+				continue
+			}
+			if !dominatesInstr(st, x) {
+				continue
+			}
+			if tb.fieldWrittenBetween(st, x, key) {
+				continue
+			}
+			if best == nil || dominatesInstr(best, st) {
+				best = st
+			}
+		}
+	}
+	return best
 }
 
 // sharedEpoch returns the epoch of the earliest load of the same field of the
@@ -572,9 +614,21 @@ func (tb *TB) fieldWrittenBetween(from, to ssa.Instruction, key string) bool {
 		}
 		return false
 	}
-	vis := tb.p.Reach([]Loc{locAfter(from)}, func(in ssa.Instruction) bool { return in == to })
+	vis := tb.p.Reach([]Loc{locAfter(from)}, func(in ssa.Instruction) bool { return in == to || in == from })
 	for in := range vis {
-		if interferes(in) {
+		if !interferes(in) {
+			continue
+		}
+		// the write matters only if `to` can be reached from it without
+		// passing `from` again (a later evaluation of `from` re-reads the field)
+		hit := false
+		tb.p.Reach([]Loc{locAfter(in)}, func(x ssa.Instruction) bool {
+			if x == to {
+				hit = true
+			}
+			return x == to || x == from
+		})
+		if hit {
 			return true
 		}
 	}
